@@ -252,6 +252,49 @@ pub fn run(ctx: &Ctx) -> Report {
         });
         rep.absorb(acc);
     }
+    // (a2) index families: atom groups of every size 1..=140 with 1..3 members (group headers -64, -128 ...),
+    //      and repeated pairs at every construction index up to 140 (instructions -64, ...)
+    {
+        let mut acc = Acc::default();
+        let mut a = Allocator::new();
+        let mut run_tree = |t: &crate::tree::T, name: String, acc: &mut Acc, a: &mut Allocator| {
+            let ser = t.ser();
+            let n = Builder::new(Sharing::HashCons, Enc::Inline).build(a, t);
+            acc.inc("tree_cases");
+            match serialize_2026(a, n, 0) {
+                Ok(blob) => {
+                    for strict in [true, false] {
+                        match deserialize_2026(a, &blob, 1 << 20, strict) {
+                            Ok(m) if tree::read_ser(a, m) == ser => {}
+                            o => acc.violation(name.clone(), format!("round trip (strict={strict}) fails: {:?}", o.map(|_| "different tree"))),
+                        }
+                        match serialized_length_serde_2026(&blob, 1 << 20, strict) {
+                            Ok(l) if l as usize == blob.len() => {}
+                            o => acc.violation(name.clone(), format!("length probe (strict={strict}) {o:?} != {}", blob.len())),
+                        }
+                    }
+                }
+                Err(e) => acc.violation(name, format!("serialize_2026 failed: {e}")),
+            }
+        };
+        for len in 1..=140usize {
+            for members in 1..=3usize {
+                let atoms: Vec<crate::tree::T> = (0..members).map(|m| crate::tree::atom(&vec![0x30 + m as u8; len])).collect();
+                let t = crate::tree::list(&atoms);
+                run_tree(&t, format!("atom group len={len} members={members}"), &mut acc, &mut a);
+            }
+        }
+        for n in 1..=140usize {
+            let items: Vec<crate::tree::T> = (0..n).map(|j| crate::tree::cons(crate::tree::int_atom(1000 + j as i128), crate::tree::int_atom(5000 + j as i128))).collect();
+            for k in [0usize, n / 2, n - 1] {
+                let t = crate::tree::cons(crate::tree::list(&items), items[k].clone());
+                run_tree(&t, format!("repeated pair n={n} k={k}"), &mut acc, &mut a);
+                let t2 = crate::tree::cons(items[k].clone(), crate::tree::list(&items));
+                run_tree(&t2, format!("repeated pair first n={n} k={k}"), &mut acc, &mut a);
+            }
+        }
+        rep.absorb(acc);
+    }
     // (b) raw bodies: BYTES(2|3) and BYTES(5|6, 12-byte alphabet)
     let all = all_bytes();
     let l1 = ctx.pick(2, 3);
